@@ -159,7 +159,7 @@ func shapes(s scope) []Ref {
 	p := s.String()
 	auth := s.Dom + s.Port
 	upper := auth + "/" + strings.ToUpper(strings.Join(s.Comps, "/"))
-	look := auth + "/" + strings.ReplaceAll(strings.Join(s.Comps, "/"), "a", "а") // Cyrillic a
+	look := auth + "/" + strings.ReplaceAll(strings.Join(s.Comps, "/"), "a", "\u0430") // Cyrillic a
 	mk := func(name, text string) Ref { return Ref{Text: text, Kind: "shape:" + name, Lenient: true} }
 	return []Ref{
 		mk("tag-only", p+":v1"),
@@ -193,16 +193,22 @@ func shapes(s scope) []Ref {
 // space, look-alikes, normalisation forms, prefixes.
 var blobNames = []string{
 	"blob", "Blob", "BLOB", "blob ", " blob", "blob\t", "blo", "blob2", "bl ob", "b",
-	"blοb",     // Greek omicron
-	"bloｂ",     // full-width b
-	"blob​",    // zero-width space
-	"blob ",    // no-break space
-	"café",     // NFC
-	"café",    // NFD
-	"blob\x00", "*", // NUL suffix, the OCI wildcard token (no meaning for blobs)
+	"bl\u03bfb",   // Greek omicron
+	"blo\uff42",   // full-width b
+	"blob\u200b",  // zero-width space
+	"blob\u00a0",  // no-break space
+	"caf\u00e9",   // NFC
+	"cafe\u0301",  // NFD
+	"blob\x00", "*", // NUL suffix; the OCI wildcard token (no meaning for blobs)
 }
 
-var blankNames = []string{" ", "\t", "  \n", " ", " "}
+// blankNames consist of white space only (strings.TrimSpace's notion, which covers U+00A0 and U+2003).
+var blankNames = []string{" ", "\t", "  \n", "\u00a0", "\u2003"}
+
+var skeletonRepl = strings.NewReplacer("\u03bf", "o", "\uff42", "b", "\u200b", "", "\u00a0", "", "\u00e9", "e", "\u0301", "", "\x00", "", "\u0430", "a")
+
+// skeleton folds the look-alikes of the alphabets onto plain ASCII (classification only).
+func skeleton(s string) string { return strings.ToLower(strings.TrimSpace(skeletonRepl.Replace(s))) }
 
 // ---------- document builders ----------
 
@@ -359,9 +365,11 @@ func probe(ref string) string {
 
 // relation classifies how the probed text relates to the listed (non-wildcard) strings: the
 // strongest of exact, casefold, tag, extension (a listed string is a proper prefix), prefix
-// (it is a proper prefix of a listed string), substring, none. Classification only.
+// (it is a proper prefix of a listed string), lookalike, substring, none. Classification only.
+var relRank = map[string]int{"none": 0, "substring": 1, "lookalike": 2, "prefix": 3, "extension": 4, "tag": 5, "casefold": 6, "exact": 7}
+
 func relation(p string, listed []string) string {
-	rank := map[string]int{"none": 0, "substring": 1, "prefix": 2, "extension": 3, "tag": 4, "casefold": 5, "exact": 6}
+	rank := relRank
 	best := "none"
 	for _, s := range listed {
 		if s == "*" {
@@ -381,8 +389,8 @@ func relation(p string, listed []string) string {
 			r = "prefix"
 		case p != "" && (strings.Contains(s, p) || strings.Contains(p, s)):
 			r = "substring"
-		case strings.EqualFold(strings.TrimSpace(s), strings.TrimSpace(p)):
-			r = "casefold"
+		case skeleton(s) == skeleton(p):
+			r = "lookalike"
 		}
 		if rank[r] > rank[best] {
 			best = r
@@ -595,10 +603,10 @@ func genRef(rt *rapid.T, d ociDoc) Ref {
 	return sh[rapid.IntRange(0, len(sh)-1).Draw(rt, "shape")]
 }
 
-func genBlobStmts(rt *rapid.T, allowSkip bool) []Stmt {
+func genBlobStmts(rt *rapid.T, allowSkip, forceGlobal bool) []Stmt {
 	k := rp.Pick(rt, "statements", 1, 2, 2, 3, 3, 4, 4)
 	global := -1
-	if rapid.IntRange(0, 2).Draw(rt, "hasGlobal") != 0 {
+	if rapid.IntRange(0, 2).Draw(rt, "hasGlobal") != 0 || forceGlobal {
 		global = rapid.IntRange(0, k-1).Draw(rt, "globalAt")
 	}
 	var out []Stmt
